@@ -44,4 +44,10 @@ def fmt_Fprint (w : Writer) (s : Bytes) : Writer × Option Src.Err :=
     ({ w with calls := w.calls + 1, out := w.out ++ s.take w.fault.short }, some Src.Err.writer)
   else ({ w with calls := w.calls + 1, out := w.out ++ s }, none)
 
+/-- `c.Sprint(s)` of fatih/color with colour switched off (NO_COLOR, a writer that is not a terminal): the text -/
+def color_Sprint (s : Bytes) : Bytes := s
+
+/-- `%d` of a counter's value -/
+def fmt_d (n : Int) : Bytes := Gtree.natBytes n.toNat
+
 end Gtree.Go
